@@ -99,6 +99,8 @@ var acceptC09 = []accept{
 
 func runC09(p *eng.Prog, r *eng.Report, tier string) {
 	c := &cx{p, r, tier}
+	r18WalkSkipsOnlyItself(c, "C09.36")
+	r18ClosersReleaseOnEveryPath(c, "C09.37")
 	c.r.Floor("C09.35", "returns with a deferred release pending", deferredReleaseFindsTheLockHeld(c, "C09.35", ""), 20)
 	c.r.Floor("C09.34", "inner iterators closed by wrapping iterators", r17IteratorCloseReleases(c, "C09.34"), 1)
 	// C09.33 (= C11.5, imported): the separators of an address are looked up in the order of RFC 7622 and no
